@@ -110,12 +110,13 @@ func runC14(c *engine.Ctx) {
 				}
 				closes++
 				c.AllPaths(side.sym+">fires", engine.PathCheck{Fn: cl, Sink: engine.Is(in), Pred: func(st *engine.PathState) string {
-					for _, l := range st.Lits {
-						if l.Op != token.GTR || !l.Val {
-							continue
+					scaled := true
+					found := st.Ordered(func(x ssa.Value, op token.Token, y ssa.Value) bool {
+						if op != token.GTR {
+							return false
 						}
-						sx := engine.Provenance(l.X, engine.ProvOpts{})
-						sy := engine.Provenance(l.Y, engine.ProvOpts{})
+						sx := engine.Provenance(x, engine.ProvOpts{})
+						sy := engine.Provenance(y, engine.ProvOpts{})
 						since := false
 						for k := range sx.Calls {
 							if k.Pkg() != nil && k.Pkg().Path() == "time" && k.Name() == "Since" {
@@ -133,15 +134,22 @@ func runC14(c *engine.Ctx) {
 								timeout = true
 							}
 						}
-						if since && stamp && timeout {
-							// the timeout is scaled by time.Second
-							if bo, ok := l.Y.(*ssa.BinOp); ok && bo.Op == token.MUL {
-								if k, ok := engine.ConstInt(bo.Y); ok && k == 1_000_000_000 {
-									return ""
-								}
+						if !(since && stamp && timeout) {
+							return false
+						}
+						scaled = false
+						if bo, ok := y.(*ssa.BinOp); ok && bo.Op == token.MUL {
+							if k, ok := engine.ConstInt(bo.Y); ok && k == 1_000_000_000 {
+								scaled = true
 							}
+						}
+						return true
+					})
+					if found {
+						if !scaled {
 							return "the timeout is not HeartbeatTimeout × time.Second"
 						}
+						return ""
 					}
 					return "the connection is closed on a path that did not find time.Since(" + side.stamp + ") > HeartbeatTimeout"
 				}}, "connection closed exactly on heartbeat timeout")
@@ -403,25 +411,30 @@ func runC14(c *engine.Ctx) {
 	// ---- R5 re-login ----
 	c.Rule("R5", "keepControllerWorking waits for the session to end and re-logs in with firstLoginExit=false (never gives up); the login closure builds the new control from the configuration read under cfgMu at that time and runs it with those proxies and visitors; Control.Run updates both managers")
 	n = 0
-	loopLogin := method(c, "client", "Service", "loopLoginUntilSuccess")
-	if kf := fn(c, "client.Service.keepControllerWorking"); kf != nil && loopLogin != nil {
+	loginFn := clientLoginLoop(c)
+	var loopLogin *types.Func
+	var kf *ssa.Function
+	if loginFn != nil {
+		loopLogin, _ = loginFn.Object().(*types.Func)
+		kf = clientSupervisor(c, loginFn)
+	}
+	if kf != nil && loopLogin != nil {
+		kn := c.P.FuncName(kf)
 		calls := engine.CallsToDeep(kf, loopLogin)
-		if len(calls) == 0 {
-			c.Violate("client.Service.keepControllerWorking>relogin", kf.Pos(), nil, "the keep-alive loop never logs in again")
-		}
 		for _, call := range calls {
 			n++
 			args := engine.CallArgs(call)
 			b, isC := engine.ConstBool(args[len(args)-1])
-			c.Check(isC && !b, "client.Service.keepControllerWorking>never-gives-up", call.Pos(), 1, nil,
+			c.Check(isC && !b, kn+">never-gives-up", call.Pos(), 1, nil,
 				"re-login passes firstLoginExit=false: a refused or failed re-login is retried, not turned into service exit")
 		}
 		n++
 		done := method(c, "client", "Control", "Done")
-		c.Check(len(engine.CallsToDeep(kf, done)) >= 2 && len(engine.CallsToDeep(kf, backoffUntil)) == 1, "client.Service.keepControllerWorking>loop", kf.Pos(), 2, nil,
+		c.Check(len(engine.CallsToDeep(kf, done)) >= 2 && len(engine.CallsToDeep(kf, backoffUntil)) == 1, kn+">loop", kf.Pos(), 2, nil,
 			"the loop waits for the current control to finish before and after each re-login, inside a back-off loop")
 	}
-	if lf := fn(c, "client.Service.loopLoginUntilSuccess"); lf != nil {
+	if lf := loginFn; lf != nil {
+		ln := c.P.FuncName(lf)
 		ctlRun := method(c, "client", "Control", "Run")
 		pcF := field(c, "client", "Service", "proxyCfgs")
 		vcF := field(c, "client", "Service", "visitorCfgs")
@@ -430,8 +443,23 @@ func runC14(c *engine.Ctx) {
 			args := engine.CallArgs(call)
 			s1 := engine.Provenance(args[1], engine.ProvOpts{})
 			s2 := engine.Provenance(args[2], engine.ProvOpts{})
-			c.Check(s1.HasField(pcF) && s2.HasField(vcF), "client.Service.loopLoginUntilSuccess>current-config", call.Pos(), 2, nil,
+			c.Check(s1.HasField(pcF) && s2.HasField(vcF), ln+">current-config", call.Pos(), 2, nil,
 				"the new control is run with the service's current proxy and visitor configurations")
+			// ... read at the time of this login attempt: the loads of the two fields happen in the function that
+			// starts the control (the retried login closure), not once before the retry loop
+			n++
+			stale := ""
+			for i, fv := range []*types.Var{pcF, vcF} {
+				for v := range []*engine.Sources{s1, s2}[i].Values {
+					if lf, _ := engine.LoadedField(v); lf == fv {
+						if in, ok := v.(ssa.Instruction); ok && in.Parent() != call.Parent() {
+							stale = fv.Name() + " is read in " + c.P.FuncName(in.Parent()) + ", outside the login attempt that uses it"
+						}
+					}
+				}
+			}
+			c.Check(stale == "", ln+">config-read-per-attempt", call.Pos(), 2, nil,
+				"the configuration handed to the new control is read when the login succeeds (a reload during an outage is not lost) %s", stale)
 		}
 	}
 	if rf := fn(c, "client.Control.Run"); rf != nil {
@@ -480,4 +508,8 @@ func runC14(c *engine.Ctx) {
 	}
 	checkWorkerTeardown(c)
 	_ = types.Universe
+
+	// ---- R7 closing the control connection wakes its reader on every transport (shared with C01.R10): the heartbeat
+	// watchdog tears a session down by closing the connection; over QUIC that works only if Close aborts the receive side ----
+	checkGracefulClose(c, "R7")
 }
